@@ -1123,3 +1123,145 @@ Proof.
   - intros m o0 d0 N0 D0; vm_compute in N0; injection N0 as <-;
       destruct m; vm_compute in D0; injection D0 as <-; split; try discriminate; reflexivity.
 Qed.
+
+(** * Fifth wave: non-monic f -- the starting order Z[theta] cap Z[1/theta] is always an order; no flag *)
+From RNT.Refine Require Import Round2W5Driver.
+From RNT.Refine Require OrderW3Span.
+
+(** [P] non_monic_start_is_order (Dedekind).  For EVERY f = a_n x^n + .. + a_0 of degree n >= 1 with a_n <> 0 (a
+    canonical coefficient list: no trailing zero; any sign, not necessarily primitive, irreducible or squarefree),
+    [non_monic_initial_order f] returns (its generator matrix 1, w_1, .., w_(n-1), w_i = a_n x^i + .. + a_(n-i+1) x, is
+    lower triangular with diagonal 1, a_n, .., a_n), and the stored basis is an order in the sense of [is_order]: lower
+    triangular with positive diagonal, contains 1, and [Order::get_mult_table] returns on it -- every product of two
+    basis elements in Q[x]/(f) has integer coordinates.  Proof: with b_u = a_(n-u) and
+    D_k = b_0 x^k + .. + b_(k-1) x (all k >= 0) the polynomial identity
+      D_i D_j = sum_(u < i) b_u D_(i+j-u) - sum_(v < i) b_(j+v) D_(i-v)
+    holds in any commutative ring (Round2W5Ident.DP_mul, induction on i from D_(k+1) = x D_k + b_k x); w_k = D_k for
+    k < n, D_n = f - a_0 and D_k = x^(k-n) f for k > n, so modulo f every product w_i w_j is an integer combination of
+    1, w_1, .., w_(n-1); [hnf_reduce] keeps the lattice. *)
+Theorem non_monic_start_is_order : forall f deg,
+  PolyZ.canonZ f = true -> length f = S deg -> (1 <= deg)%nat ->
+  exists o0, non_monic_initial_order f = Done o0 /\ is_order f deg o0.
+Proof. exact Round2W5Driver.non_monic_start_is_order. Qed.
+
+(** [P] the flag of the [C] theorems above ([find_integral_basis_order_partial], [.._maximal_partial],
+    [.._p_maximal_partial]) holds for every such f *)
+Theorem non_monic_start_table : forall f deg o0,
+  PolyZ.canonZ f = true -> length f = S deg -> (1 <= deg)%nat ->
+  non_monic_initial_order f = Done o0 -> exists T0, get_mult_table o0 f = Done T0.
+Proof. exact Round2W5Driver.non_monic_start_table. Qed.
+
+Theorem non_monic_flag : forall f deg,
+  PolyZ.canonZ f = true -> length f = S deg -> (1 <= deg)%nat ->
+  exists o0 T0, non_monic_initial_order f = Done o0 /\ get_mult_table o0 f = Done T0.
+Proof. exact Round2W5Driver.non_monic_flag. Qed.
+
+(** [P] Dedekind's lemma on the generators as written by [non_monic_initial_order] (before [hnf_reduce]; row 0 = 1,
+    row i = a_n x^i + .. + a_(n-i+1) x, C15 [nm_rows_entry]): [Order::get_mult_table] returns on them *)
+Theorem dedekind_generators_table : forall f deg,
+  PolyZ.canonZ f = true -> length f = S deg -> (1 <= deg)%nat ->
+  exists T, get_mult_table (OrderW3Span.nm_rows f deg) f = Done T.
+Proof. exact Round2W5Driver.nm_rows_table. Qed.
+
+(** [P] find_integral_basis_order: the statement of [find_integral_basis_order_partial] without its flag, for every f
+    of degree >= 1 with non-zero leading coefficient, in both build profiles.  The starting order is computed and is
+    an order; if the driver returns, its result is an order; every panic of the driver is a panic of
+    [o.discriminant(theta)], of the trial factorisation (discriminant 0: f not squarefree), or the u64 overflow of
+    [e -= 2 * howmany] -- no panic of [non_monic_initial_order], and no assertion, index, unwrap or division panic
+    inside [one_step], is reachable. *)
+Theorem find_integral_basis_order : forall m f deg,
+  PolyZ.canonZ f = true -> length f = S deg -> (1 <= deg)%nat ->
+  exists o0, non_monic_initial_order f = Done o0 /\ is_order f deg o0 /\
+    match find_integral_basis m f with
+    | Done om => is_order f deg om
+    | Panic t =>
+        order_disc m o0 f = Panic t \/
+        exists disc, order_disc m o0 f = Done disc /\
+          (Elementary.trial_factorize (Z.abs disc) = Panic t \/ t = POverflow)
+    | OutOfFuel => True
+    end.
+Proof. exact Round2W5Driver.find_integral_basis_order_all. Qed.
+
+(** [P] find_integral_basis_no_panic: [find_integral_basis_no_panic_monic] for ALL f with non-zero leading coefficient:
+    degree deg >= 1 (2 deg < 2^64), starting order of non-zero discriminant d0 with fewer than 2^64 bits; in both build
+    profiles the driver returns (no panic, enough fuel) and the result is an order *)
+Theorem find_integral_basis_no_panic : forall m f deg,
+  PolyZ.canonZ f = true -> length f = S deg -> (1 <= deg)%nat -> 2 * Z.of_nat deg < two64 ->
+  (forall o0 d0, non_monic_initial_order f = Done o0 -> order_disc m o0 f = Done d0 ->
+     d0 <> 0 /\ Z.log2 (Z.abs d0) < two64) ->
+  exists O, find_integral_basis m f = Done O /\ is_order f deg O.
+Proof. exact Round2W5Driver.find_integral_basis_no_panic. Qed.
+
+(** [P] find_integral_basis_p_maximal_all: ... and the returned order is p-maximal at every prime p *)
+Theorem find_integral_basis_p_maximal_all : forall m f deg,
+  PolyZ.canonZ f = true -> length f = S deg -> (1 <= deg)%nat -> 2 * Z.of_nat deg < two64 ->
+  (forall o0 d0, non_monic_initial_order f = Done o0 -> order_disc m o0 f = Done d0 ->
+     d0 <> 0 /\ Z.log2 (Z.abs d0) < two64) ->
+  exists O, find_integral_basis m f = Done O /\ is_order f deg O /\
+            forall p, prime p -> p_maximal f deg p O.
+Proof. exact Round2W5Driver.find_integral_basis_p_maximal_all. Qed.
+
+(** [P] find_integral_basis_maximal_all: ... hence it is THE maximal order: index 1 (or -1) in every over-order, which
+    has the same lattice ([find_integral_basis_maximal] without the hypothesis "f monic") *)
+Theorem find_integral_basis_maximal_all : forall m f deg,
+  PolyZ.canonZ f = true -> length f = S deg -> (1 <= deg)%nat -> 2 * Z.of_nat deg < two64 ->
+  (forall o0 d0, non_monic_initial_order f = Done o0 -> order_disc m o0 f = Done d0 ->
+     d0 <> 0 /\ Z.log2 (Z.abs d0) < two64) ->
+  exists O, find_integral_basis m f = Done O /\ is_order f deg O /\
+    forall o2, over_order f deg O o2 ->
+      (order_index o2 O = Done 1 \/ order_index o2 O = Done (-1)) /\
+      forall t, (t < deg)%nat -> in_spanQ deg (nth t o2 []) O.
+Proof. exact Round2W5Driver.find_integral_basis_maximal_all. Qed.
+
+(** ** Non-vacuity (fifth wave) *)
+
+(** the hypotheses on the non-monic 2x^3 + x + 1 (d0 = -116), 6x^5 - 7x^4 + 6x^3 - 7x^2 + 6x + 5 (d0 = 9851980752 =
+    7601837 * 36^2) and -3x^2 + x + 5 (negative leading coefficient, d0 = 61): canonical, degree >= 1, discriminant of the
+    starting order non-zero with few bits, in both profiles *)
+Example w5_hyp : forall f, In f [[1; 1; 0; 2]; [5; 6; -7; 6; -7; 6]; [5; 1; -3]] ->
+  PolyZ.canonZ f = true /\ (1 <= length f - 1)%nat /\ 2 * Z.of_nat (length f - 1) < two64 /\
+  nth (length f - 1) f 0 <> 1 /\
+  forall m o0 d0, non_monic_initial_order f = Done o0 -> order_disc m o0 f = Done d0 ->
+    d0 <> 0 /\ Z.log2 (Z.abs d0) < two64.
+Proof.
+  intros f [<-|[<-|[<-|[]]]];
+    (split; [reflexivity|]; split; [cbn; lia|]; split; [reflexivity|]; split; [cbn; discriminate|]);
+    intros m o0 d0 N0 D0; vm_compute in N0; injection N0 as <-;
+    destruct m; vm_compute in D0; injection D0 as <-; split; try discriminate; reflexivity.
+Qed.
+
+(** what the model returns on them: (discriminant, index over the starting order) = (-116, 1), (7601837, 36), (61, 1) *)
+Example w5_results :
+  match ib_find Checked [1; 1; 0; 2], ib_find Checked [5; 6; -7; 6; -7; 6], ib_find Checked [5; 1; -3] with
+  | Done (_, d1, i1), Done (_, d2, i2), Done (_, d3, i3) =>
+      (d1 =? -116) && (i1 =? 1) && (d2 =? 7601837) && (i2 =? 36) && (d3 =? 61) && (i3 =? 1)
+  | _, _, _ => false
+  end = true.
+Proof. vm_compute. reflexivity. Qed.
+
+(** the starting order of -3x^2 + x + 5: generators 1, -3 theta; stored basis 1, 3 theta; (3 theta)^2 = 15 + 3 theta *)
+Example w5_start_neg :
+  match non_monic_initial_order [5; 1; -3] with
+  | Done o0 => map (map this) o0 = [[1#1; 0#1]; [0#1; 3#1]]%Q /\
+               get_mult_table o0 [5; 1; -3] = Done [[[1; 0]; [0; 1]]; [[0; 1]; [15; 1]]]
+  | _ => False end /\
+  map (map this) (OrderW3Span.nm_rows [5; 1; -3] 2) = [[1#1; 0#1]; [0#1; -3#1]]%Q.
+Proof. vm_compute. auto. Qed.
+
+(** the generators of 6x^5 - 7x^4 + 6x^3 - 7x^2 + 6x + 5 and one line of their table:
+    w_1 w_4 = a_5 (f - a_0) - a_1 w_1 = -30 - 6 w_1 and w_2 w_3 = -30 - 6 w_1 + 7 w_2 - 7 w_4 modulo f (degree 5: reduced) *)
+Example w5_start_deg5 :
+  let f := [5; 6; -7; 6; -7; 6] in
+  map (map this) (OrderW3Span.nm_rows f 5)
+    = [[1#1; 0#1; 0#1; 0#1; 0#1]; [0#1; 6#1; 0#1; 0#1; 0#1]; [0#1; -7#1; 6#1; 0#1; 0#1];
+       [0#1; 6#1; -7#1; 6#1; 0#1]; [0#1; -7#1; 6#1; -7#1; 6#1]]%Q /\
+  match get_mult_table (OrderW3Span.nm_rows f 5) f with
+  | Done T => nth 4 (nth 1 T []) [] = [-30; -6; 0; 0; 0] /\ nth 3 (nth 2 T []) [] = [-30; -6; 7; 0; -7]
+  | _ => False end.
+Proof. vm_compute. auto. Qed.
+
+(** [is_order] is not trivially true for non-monic f: the power basis 1, theta, theta^2 of 2x^3 + x + 1 is NOT closed under
+    multiplication (theta^3 = -(theta + 1)/2): the [is_integer] assertion of [get_mult_table] fires *)
+Example w5_power_basis_not_ring :
+  get_mult_table (identity fopsQc 3) [1; 1; 0; 2] = Panic PAssert.
+Proof. vm_compute. reflexivity. Qed.
